@@ -546,13 +546,63 @@ pub fn gen_rows(dt: &DataType, dom: &[Val], n: usize, null_of_8: u64, runny: boo
     out
 }
 
-/// one arbitrary (possibly NULL) value, used as padding / garbage
+fn small_int_max(dt: &DataType) -> Option<i128> {
+    match dt {
+        DataType::Decimal32(_, _) | DataType::Decimal64(_, _) | DataType::Decimal128(_, _) | DataType::Decimal256(_, _) => Some(999_999),
+        DataType::Time32(TimeUnit::Second) => Some(86_399),
+        DataType::Time32(_) => Some(86_399_999),
+        DataType::Time64(TimeUnit::Microsecond) => Some(86_399_999_999),
+        DataType::Time64(_) => Some(86_399_999_999_999),
+        _ => None,
+    }
+}
+
+const GARBAGE_BYTES: &[&[u8]] = &[b"", b"g", b"garbage", b"garbage-12by", b"garbage-13byt", b"garbage-longer-than-twelve-bytes", "g\u{e4}rbage".as_bytes()];
+
+/// one arbitrary (possibly NULL) value, used as padding / garbage (cheap: no domain is built)
 pub fn garbage(dt: &DataType, nullable: bool, rng: &mut Rng) -> Val {
-    let d = domain(dt, DomOpts::plain(), 6, rng);
-    if d.is_empty() || (nullable && rng.chance(1, 5)) {
+    if nullable && rng.chance(1, 5) {
         return null_of(dt, rng);
     }
-    rng.pick(&d).clone()
+    match dt {
+        DataType::Null => Val::Null,
+        DataType::Boolean => Val::Bool(rng.bool()),
+        DataType::Float16 => Val::F(*rng.pick(&[0x3c00u64, 0x7e00, 0xc000, 0x0001, 0x7bff])),
+        DataType::Float32 => Val::F(*rng.pick(&[0x3f80_0000u64, 0x7fc0_0000, 0xc000_0000, 0x0000_0001, 0x4049_0fdb])),
+        DataType::Float64 => Val::F(*rng.pick(&[0x3ff0_0000_0000_0000u64, 0x7ff8_0000_0000_0000, 0xc000_0000_0000_0000, 1, 0x4009_21fb_5444_2d18])),
+        DataType::Utf8 | DataType::LargeUtf8 | DataType::Utf8View => Val::Bytes(rng.pick(GARBAGE_BYTES).to_vec()),
+        DataType::Binary | DataType::LargeBinary | DataType::BinaryView => {
+            if rng.chance(1, 4) {
+                Val::Bytes(vec![0xff, 0x00, 0xfe])
+            } else {
+                Val::Bytes(rng.pick(GARBAGE_BYTES).to_vec())
+            }
+        }
+        DataType::FixedSizeBinary(n) => Val::Bytes((0..*n).map(|_| rng.below(256) as u8).collect()),
+        DataType::Dictionary(_, v) => garbage(v, false, rng),
+        DataType::RunEndEncoded(_, v) => garbage(v.data_type(), false, rng),
+        DataType::List(f) | DataType::LargeList(f) | DataType::ListView(f) | DataType::LargeListView(f) => {
+            let n = rng.usize(3);
+            Val::List((0..n).map(|_| garbage(f.data_type(), f.is_nullable(), rng)).collect())
+        }
+        DataType::FixedSizeList(f, n) => Val::List((0..*n).map(|_| garbage(f.data_type(), f.is_nullable(), rng)).collect()),
+        DataType::Struct(fs) => Val::Struct(fs.iter().map(|f| garbage(f.data_type(), f.is_nullable(), rng)).collect()),
+        DataType::Map(ef, _) => {
+            let DataType::Struct(kv) = ef.data_type() else { unreachable!() };
+            let n = rng.usize(3);
+            Val::List((0..n).map(|_| Val::Struct(vec![garbage(kv[0].data_type(), false, rng), garbage(kv[1].data_type(), kv[1].is_nullable(), rng)])).collect())
+        }
+        DataType::Union(ufs, _) => {
+            let fields: Vec<(i8, &FieldRef)> = ufs.iter().collect();
+            let (t, f) = *rng.pick(&fields);
+            Val::Union(t, Box::new(garbage(f.data_type(), f.is_nullable(), rng)))
+        }
+        _ if dt.is_primitive() => match small_int_max(dt) {
+            Some(max) => norm_int(dt, rng.below(max as u64 + 1) as i128),
+            None => norm_int(dt, *rng.pick(RAW_INTS)),
+        },
+        other => panic!("harness: no garbage value for {other}"),
+    }
 }
 
 // ---------------------------------------------------------------------------------------
@@ -781,7 +831,7 @@ impl<'a> Builder<'a> {
         let mut views: Vec<u128> = Vec::with_capacity(vals.len());
         let place = |s: &mut Self, bufs: &mut Vec<Vec<u8>>, b: &[u8]| -> u128 {
             let bi = if multi { s.rng.usize(nbuf) } else { 0 };
-            if gaps && s.rng.bool() {
+            if gaps && (s.forced || s.rng.bool()) {
                 s.mark("view-gaps");
                 bufs[bi].extend_from_slice(b"~~gap~~");
             }
